@@ -117,7 +117,8 @@ def gen_mont(tu, sfile, rname):
         for kk in (0, 1):
             if (D - Poly.const(kk * Q * RM)).is_zero():
                 k = kk
-        obs.append(chk("%s: VAL(res) * R == t + U*p - k*p*R with k in {0,1} on this path (exact identity)" % tag, k is not None, "residual %r" % D))
+        cx = None      # (an integer model of the word facts with a non-vanishing residual was tried as a failing input: z3 does not find one in minutes)
+        obs.append(("%s: VAL(res) * R == t + U*p - k*p*R with k in {0,1} on this path (exact identity)" % tag, "ok" if k is not None else "fail", "" if k is not None else "residual %r" % D, cx))
         obs.append(chk("%s: VAL(res) < p on this path (z3 over the recorded word ranges, t < p*R)" % tag, dom.prove_lt(dom.reduce_eq(Rv), Q, timeout=60), "not derivable"))
         obs.append(chk("%s: t and p are not written" % tag, mem["t"] == t0))
         obs += frame_obs(m, tag, "res", ["t", "p"])
@@ -153,6 +154,8 @@ def _replay(rec, unit, result, fresh, tu, wd, cx):
             ins = [words(a, 6) + words(b, 6) for a, b in zip(ops, reversed(ops))]
             nin = 12
         nout = 12
+    if cx and cx.get("inputs") and kind == "mont":
+        ins = [list(cx["inputs"])] + ins          # the verifier's model first
     sym = PRE + rname
     call = {"mul": "%s(r, in[k], in[k] + 6);" % sym, "sq": "%s(r, in[k]);" % sym, "mont": "{ uint64_t t[12]; memcpy(t, in[k], sizeof t); %s(r, t, P, %dULL); }" % (sym, (-pow(Q, -1, 1 << 64)) % (1 << 64))}[kind]
     proto = {"mul": "void %s(void*, const void*, const void*);" % sym, "sq": "void %s(void*, const void*);" % sym, "mont": "void %s(void*, void*, const void*, uint64_t);" % sym}[kind]
